@@ -638,4 +638,139 @@ theorem monthlyCombined_nn {mw me : List Rat} (hw : NN mw) (he : NN me) : NN (mo
     exact mul_nonneg h1 h2
 
 
+
+/-! ### cumulative earned ≤ cumulative written -/
+
+theorem NN.take_sum_le {l : List Rat} (h : NN l) (m : Nat) : (l.take m).sum ≤ l.sum := by
+  have : l.sum = (l.take m).sum + (l.drop m).sum := by
+    rw [← sum_append_rat, List.take_append_drop]
+  have h2 : 0 ≤ (l.drop m).sum := (h.sublist fun _ hx => List.mem_of_mem_drop hx).sum
+  linarith
+
+theorem NN.take {l : List Rat} (h : NN l) (m : Nat) : NN (l.take m) :=
+  h.sublist fun _ hx => List.mem_of_mem_take hx
+
+theorem NN.replicate_zero (n : Nat) : NN (List.replicate n 0) := by
+  intro x hx; rw [(List.mem_replicate.mp hx).2]
+
+theorem NN.append {a b : List Rat} (ha : NN a) (hb : NN b) : NN (a ++ b) := by
+  intro x hx
+  rcases List.mem_append.mp hx with h | h
+  · exact ha x h
+  · exact hb x h
+
+/-- prefix sums of a zero-padded earning pattern: at most the pattern's total, and 0 while still in
+the leading padding -/
+theorem padded_prefix {me : List Rat} (hme : NN me) (n k m : Nat) :
+    ((List.replicate n (0 : Rat) ++ me ++ List.replicate k 0).take m).sum ≤
+      (if n < m then me.sum else 0) := by
+  split
+  · have hnn : NN (List.replicate n (0 : Rat) ++ me ++ List.replicate k 0) :=
+      ((NN.replicate_zero n).append hme).append (NN.replicate_zero k)
+    refine (hnn.take_sum_le m).trans (le_of_eq ?_)
+    simp
+  · rename_i hm
+    have : (List.replicate n (0 : Rat) ++ me ++ List.replicate k 0).take m = List.replicate m 0 := by
+      rw [List.append_assoc, List.take_append_of_le_length (by simp; omega), List.take_replicate]
+      congr 1; omega
+    rw [this, sum_replicate]; simp
+
+theorem take_foldl_zipWith (rows : List (List Rat)) (acc : List Rat) (m : Nat) :
+    (rows.foldl (fun acc r => List.zipWith (· + ·) acc r) acc).take m =
+      (rows.map (List.take m)).foldl (fun acc r => List.zipWith (· + ·) acc r) (acc.take m) := by
+  induction rows generalizing acc with
+  | nil => rfl
+  | cons r rest ih =>
+    simp only [List.foldl_cons, List.map_cons]
+    rw [ih, List.take_zipWith]
+
+theorem sum_le_sum {α} (l : List α) (F G : α → Rat) (h : ∀ a ∈ l, F a ≤ G a) :
+    (l.map F).sum ≤ (l.map G).sum := by
+  induction l with
+  | nil => simp
+  | cons a rest ih =>
+    simp only [List.map_cons, List.sum_cons]
+    have := h a (by simp)
+    have := ih fun b hb => h b (by simp [hb])
+    linarith
+
+theorem sum_range_indicator (l : List Rat) (m : Nat) :
+    ((List.range l.length).map fun n => l[n]! * (if n < m then 1 else 0)).sum = (l.take m).sum := by
+  induction l generalizing m with
+  | nil => simp
+  | cons a rest ih =>
+    rw [List.length_cons, List.range_succ_eq_map, List.map_cons, List.map_map, List.sum_cons]
+    cases m with
+    | zero =>
+      have : ∀ (l : List Nat), (l.map ((fun _ => (0 : Rat)) ∘ Nat.succ)).sum = 0 := by
+        intro l; induction l with
+        | nil => rfl
+        | cons x xs ih' => simp [ih']
+      simpa using this _
+    | succ k =>
+      rw [List.take_succ_cons, List.sum_cons, ← ih k]
+      simp only [List.getElem!_cons_zero, Nat.zero_lt_succ, if_true, mul_one]
+      congr 1
+      apply congrArg
+      apply List.map_congr_left
+      intro n _
+      simp only [Function.comp, Nat.succ_eq_add_one, List.getElem!_cons_succ, Nat.add_lt_add_iff_right]
+
+/-- cumulative earned never exceeds cumulative written, month by month -/
+theorem monthlyCombined_prefix_le {mw me : List Rat} (hw : NN mw) (he : NN me) (hs : me.sum = 1)
+    (m : Nat) : ((monthlyCombined mw me).take m).sum ≤ (mw.take m).sum := by
+  unfold monthlyCombined
+  simp only
+  rw [take_foldl_zipWith]
+  have hrows : ∀ r ∈ ((List.range mw.length).map (fun n =>
+      ((List.replicate n (0 : Rat)) ++ me ++ List.replicate (mw.length - n - 1) 0).map (mw[n]! * ·))).map (List.take m),
+      r.length = ((List.replicate (mw.length - 1 + me.length) (0 : Rat)).take m).length := by
+    intro r hr
+    obtain ⟨r0, hr0, rfl⟩ := List.mem_map.mp hr
+    obtain ⟨n, hn, rfl⟩ := List.mem_map.mp hr0
+    have : n < mw.length := by simpa using hn
+    simp; omega
+  rw [(foldl_zipWith_sum _ _ hrows).2, List.take_replicate, sum_replicate, List.map_map, List.map_map,
+    ← sum_range_indicator]
+  simp only [mul_zero, zero_add]
+  apply sum_le_sum
+  intro n hn
+  have hn' : n < mw.length := by simpa using hn
+  simp only [Function.comp]
+  rw [← List.map_take, sum_map_mul_left]
+  have h0 : 0 ≤ mw[n]! := by rw [getElem!_pos mw n hn']; exact hw _ (List.getElem_mem hn')
+  have := padded_prefix he n (mw.length - n - 1) m
+  rw [hs] at this
+  exact mul_le_mul_of_nonneg_left this h0
+
+
+
+/-- the first `j` buckets of the loop cover a prefix `[start, S)` -/
+theorem bounds_prefix (ores size : Nat) :
+    ∀ (fuel start stop j : Nat), start ≤ stop →
+      ∃ S, start ≤ S ∧ ∀ l : List Rat,
+        (((bounds ores size fuel start stop).take j).map (bucket l)).sum = ((l.take S).drop start).sum := by
+  intro fuel
+  induction fuel with
+  | zero =>
+    intro start stop j _
+    exact ⟨start, le_refl _, fun l => by simp [bounds]⟩
+  | succ k ih =>
+    intro start stop j hle
+    cases j with
+    | zero => exact ⟨start, le_refl _, fun l => by simp⟩
+    | succ j' =>
+      unfold bounds
+      by_cases hs : start < size
+      · rw [if_pos hs]
+        obtain ⟨S, hS, hl⟩ := ih stop (stop + ores) j' (by omega)
+        refine ⟨S, by omega, fun l => ?_⟩
+        rw [List.take_succ_cons, List.map_cons, List.sum_cons, hl l]
+        have := drop_split (l.take S) hle
+        rw [List.take_take, Nat.min_eq_left hS] at this
+        exact this
+      · rw [if_neg hs]
+        exact ⟨start, le_refl _, fun l => by simp⟩
+
+
 end Bermuda.Units
